@@ -93,6 +93,11 @@ type Frame struct {
 	Pts     int64  `json:"pts_ns"`
 	// Raw, when set, is the payload itself (in-band parameter sets of layer C-RTP)
 	Raw []byte `json:"raw,omitempty"`
+	// Magic (1-based index into magicPrefixes, 0 = none): the payload starts
+	// (audio: at byte 0; video: right after the NAL header) with a byte pattern
+	// that looks like some other framing. A raw AAC access unit and a NAL
+	// payload are arbitrary bytes; nothing may be "recognised" and stripped.
+	Magic int `json:"magic,omitempty"`
 }
 
 // Join is one client: it joins just before the stream's tag number At is
@@ -285,18 +290,36 @@ func (s *Scenario) payload(f Frame) []byte {
 		x ^= x << 5
 		b[i] = byte(x >> 11)
 	}
-	if f.Audio || f.Size == 0 {
-		return b
-	}
-	if s.Codec == "H265" {
-		b[0] = byte(f.NalType&0x3F) << 1 // nuh_layer_id = 0
-		if len(b) > 1 {
-			b[1] = 1 + byte(f.NRI&1) // nuh_temporal_id_plus1 ∈ {1,2}
+	hdr := 0
+	if !f.Audio && f.Size > 0 {
+		if s.Codec == "H265" {
+			b[0] = byte(f.NalType&0x3F) << 1 // nuh_layer_id = 0
+			if len(b) > 1 {
+				b[1] = 1 + byte(f.NRI&1) // nuh_temporal_id_plus1 ∈ {1,2}
+			}
+			hdr = 2
+		} else {
+			b[0] = byte(f.NRI&3)<<5 | byte(f.NalType&0x1F)
+			hdr = 1
 		}
-	} else {
-		b[0] = byte(f.NRI&3)<<5 | byte(f.NalType&0x1F)
+	}
+	if f.Magic > 0 && hdr < len(b) {
+		copy(b[hdr:], magicPrefixes[(f.Magic-1)%len(magicPrefixes)])
 	}
 	return b
+}
+
+// magicPrefixes: byte patterns with which other framings announce themselves.
+var magicPrefixes = [][]byte{
+	{0xFF, 0xF1}, {0xFF, 0xF9}, {0xFF, 0xF0}, {0xFF, 0xF8}, // ADTS syncword, MPEG-4/-2, without/with CRC (ISO 14496-3 1.A.2.2.1)
+	{0xFF, 0xF1, 0x50, 0x80, 0x02, 0x1F, 0xFC}, // a complete, plausible ADTS header (LC, 44.1 kHz, stereo)
+	{'I', 'D', '3'},                              // ID3v2 tag
+	{0x00, 0x00, 0x00, 0x01}, {0x00, 0x00, 0x01}, // Annex-B start codes
+	{0xFF, 0xFB},          // MPEG-1 layer III sync
+	{0x56, 0xE0},          // LATM/LOAS sync (ISO 14496-3 1.7.2)
+	{'F', 'L', 'V', 0x01}, // FLV signature
+	{0x00, 0x00, 0x00, 0x00, 0x00, 0x00, 0x00, 0x00, 0x00}, // zeros
+	{0xFF, 0xFF, 0xFF, 0xFF, 0xFF, 0xFF, 0xFF, 0xFF, 0xFF},
 }
 
 func (s *Scenario) codecFrame(f Frame) *codec.Frame {
@@ -413,7 +436,14 @@ func drawScenario(t *rapid.T, layer, codecName string, audio bool, forceSynth *b
 	for i := 0; i < n; i++ {
 		if audio && (i < s.AudioLead || rapid.IntRange(0, 9).Draw(t, "isAudio") < 4) {
 			sz := rapid.SampledFrom([]int{1, 2, 7, 180, 371, 372, 1024, 6144}).Draw(t, "auSize")
-			s.Frames = append(s.Frames, Frame{Audio: true, Size: sz, Seed: rapid.Uint32().Draw(t, "seed"), Dts: adts, Pts: adts})
+			magic := 0
+			if rapid.IntRange(0, 2).Draw(t, "auMagic") == 0 {
+				// an access unit that starts like an ADTS / ID3 / start-code / MP3 / LATM
+				// header, in every length from 1 to 9 and some longer ones
+				magic = rapid.IntRange(1, len(magicPrefixes)).Draw(t, "auMagicPrefix")
+				sz = rapid.SampledFrom([]int{1, 2, 3, 4, 5, 6, 7, 8, 9, 10, 16, 200}).Draw(t, "auMagicSize")
+			}
+			s.Frames = append(s.Frames, Frame{Audio: true, Size: sz, Magic: magic, Seed: rapid.Uint32().Draw(t, "seed"), Dts: adts, Pts: adts})
 			adts += astep * rapid.Int64Range(1, 3).Draw(t, "auGap")
 			continue
 		}
@@ -424,6 +454,13 @@ func drawScenario(t *rapid.T, layer, codecName string, audio bool, forceSynth *b
 			f.NalType = rapid.SampledFrom(types).Draw(t, "nalType")
 		}
 		f.Size = drawSize(t, min, "nalSize")
+		if rapid.IntRange(0, 5).Draw(t, "nalMagic") == 0 {
+			// NAL payload bytes that look like a start code or another framing
+			f.Magic = rapid.IntRange(1, len(magicPrefixes)).Draw(t, "nalMagicPrefix")
+			if rapid.Bool().Draw(t, "nalMagicShort") {
+				f.Size = min + rapid.IntRange(0, 10).Draw(t, "nalMagicSize")
+			}
+		}
 		f.Dts = vdts
 		switch rapid.IntRange(0, 9).Draw(t, "ptsClass") {
 		case 0, 1, 2, 3:
